@@ -27,7 +27,9 @@ def frow(p, q, i):
     return (("p", p), ("q", q), ("s", "a" if p == 1 else ""),
             ("t", ((), (0,), (1, 0), (2,))[(p + q) % 4]),
             ("flag", bool(q)),
-            ("items", ((), (0, ""), (None,), (0, 1), (False, 2), ((), 0))[i % 6]))
+            # inner values for flatten: collections holding falsy elements AND falsy scalars (a non-iterable value counts
+            # as a single element)
+            ("items", ((), (0, ""), (None,), 0, (False, 2), None, ((), 0), False, (0, 1), 2)[i % 10]))
 
 
 FA = tuple(frow(p, q, i) for i, (p, q) in enumerate([(0, 0), (0, 1), (1, 0), (1, 1), (2, 0), (2, 1)]))
